@@ -29,7 +29,7 @@ ANCHORS = [
 ]
 VK = ["scalar", "flat", "flatlist", "colvec", "collist", "ragged", "bad_same_total", "bad_total", "bad_rows", "bad_onerow"]
 FLOOR_TAGS = ["vk:" + v for v in VK] + ["mask:scalar", "mask:flat", "r:int", "r:slice+1", "r:slice+k", "r:slice-", "r:list", "r:mask", "r:ell",
-                                        "recv:fresh", "recv:lazyrows", "recv:lazycols+2", "recv:lazycols-1", "recv:lazychain", "values:hostile-floats",
+                                        "recv:fresh", "recv:lazyrows", "recv:lazycols+2", "recv:lazycols-1", "recv:lazychain", "recv:deepcopy", "recv:pickle", "values:hostile-floats",
                                         "c:none", "c:int+", "c:int-", "c:slice+1", "c:slice+k", "c:slice-", "sel-has-empty-row", "e-first", "e-last", "e-mid", "allempty", "norows"]
 FLOOR_MONITORS = ["c03:footprint", "c03:must-refuse", "c03:bystander", "c03:alias", "c03:parent-untouched"]
 N_RANDOM = {"quick": 24000, "thorough": 300000}
@@ -53,7 +53,7 @@ def mk_mask_case(lens, mask, vk="scalar", dtype="int64"):
 
 
 def applicable(kind, vk, nrows_sel):
-    if vk in ("scalar",):
+    if vk in ("scalar", "augmented"):
         return True
     if vk in ("flat", "flatlist"):
         return kind == "ND"
@@ -118,7 +118,11 @@ def run(case):
     ncell = len(flatcells)
     must_refuse = False
     value_ra = None
-    if vk == "scalar":
+    if vk == "augmented":
+        value = None        # ra[idx] += 5  (a read of the selection followed by a write of the result)
+        for (i, j) in flatcells:
+            exp[i][j] = pyrows[i][j] + 5
+    elif vk == "scalar":
         value = dt.type(val(0))
         if len(lens) % 2:
             value = val(0)   # plain python number
@@ -159,7 +163,12 @@ def run(case):
     bystander = RA(np.array([v for r in by_rows for v in r], dtype=dt), list(lens))
     idx = model.make_index(rs, cs, has_cs)
 
-    out = attempt(lambda: ra.__setitem__(idx, value))
+    if vk == "augmented":
+        def aug():
+            ra[idx] += dt.type(5)
+        out = attempt(aug)
+    else:
+        out = attempt(lambda: ra.__setitem__(idx, value))
     after = attempt(peek, ra)
     if not after.ok:
         return violated("target unreadable after ra[%s] = %s: %r" % (short(idx), short(value), after), tags)
@@ -339,7 +348,7 @@ def random_case(rng, tier):
             continue
         nsel = len(cells) if kind == "RA" else 1
         vks = [v for v in VK if applicable(kind, v, nsel)]
-        recv = rng.choice(c02.RECVS) if rng.random() < 0.4 else "fresh"
+        recv = rng.choice([r_ for r_ in c02.RECVS if r_ != "readonly"]) if rng.random() < 0.4 else "fresh"
         return mk_case(lens, rs, cs, h, rng.choice(vks), dtype, recv, hostile=rng.random() < 0.5)
     return mk_case(lens, Ellipsis, None, False, "scalar", dtype)
 
